@@ -428,6 +428,53 @@ func mkCmp(op Op, a, b *Term) *Term {
 	if a == b {
 		return mkBool(op == OpULe || op == OpSLe)
 	}
+	// narrowing: comparisons between zero-extended values / small constants
+	if w > 8 {
+		ia, ib := a, b
+		if a.op == OpZExt {
+			ia = a.args[0]
+		}
+		if b.op == OpZExt {
+			ib = b.args[0]
+		}
+		if (ia != a || ib != b) && (ia != a || a.IsConst()) && (ib != b || b.IsConst()) {
+			k := 0
+			if ia != a {
+				k = ia.w
+			}
+			if ib != b && ib.w > k {
+				k = ib.w
+			}
+			if k > 0 && k < w {
+				fits := func(t, inner *Term) bool {
+					if t.IsConst() {
+						return t.val <= mask(k)
+					}
+					return inner.w <= k
+				}
+				if fits(a, ia) && fits(b, ib) {
+					na, nb := ia, ib
+					if a.IsConst() {
+						na = mkConst(k, a.val)
+					} else {
+						na = mkZExt(ia, k)
+					}
+					if b.IsConst() {
+						nb = mkConst(k, b.val)
+					} else {
+						nb = mkZExt(ib, k)
+					}
+					uop := op
+					if op == OpSLt {
+						uop = OpULt
+					} else if op == OpSLe {
+						uop = OpULe
+					}
+					return mkCmp8(uop, na, nb)
+				}
+			}
+		}
+	}
 	// range reasoning on zero-extended small values
 	if b.IsConst() {
 		if ub, ok := upperBound(a); ok {
@@ -494,6 +541,29 @@ func mkCmp(op Op, a, b *Term) *Term {
 	return newTerm(op, 0, a, b)
 }
 
+// mkCmp8 is mkCmp without re-entering the narrowing rule.
+func mkCmp8(op Op, a, b *Term) *Term {
+	if a.IsConst() && b.IsConst() {
+		return mkCmp(op, a, b)
+	}
+	if a == b {
+		return mkBool(op == OpULe)
+	}
+	if op == OpULt && b.IsConst() && b.val == 0 {
+		return tFalse
+	}
+	if op == OpULe && a.IsConst() && a.val == 0 {
+		return tTrue
+	}
+	if op == OpULt && a.IsConst() && a.val == 0 {
+		return mkNot(mkEq(b, mkConst(b.w, 0)))
+	}
+	if op == OpULe && b.IsConst() && b.val == 0 {
+		return mkEq(a, mkConst(a.w, 0))
+	}
+	return newTerm(op, 0, a, b)
+}
+
 // upperBound returns a cheap syntactic unsigned upper bound of t.
 func upperBound(t *Term) (uint64, bool) {
 	switch t.op {
@@ -538,6 +608,25 @@ func upperBound(t *Term) (uint64, bool) {
 	case OpVar, OpApp:
 		if t.w < 64 {
 			return mask(t.w), true
+		}
+	case OpBOr, OpBXor:
+		ua, oka := upperBound(t.args[0])
+		ub, okb := upperBound(t.args[1])
+		if oka && okb {
+			m := ua
+			if ub > m {
+				m = ub
+			}
+			n := bits.Len64(m)
+			if n < 64 {
+				return (uint64(1) << uint(n)) - 1, true
+			}
+		}
+	case OpShl:
+		if t.args[1].IsConst() && t.args[1].val < 64 {
+			if ua, ok := upperBound(t.args[0]); ok && bits.Len64(ua)+int(t.args[1].val) < t.w {
+				return ua << t.args[1].val, true
+			}
 		}
 	case OpAdd:
 		ua, oka := upperBound(t.args[0])
@@ -772,13 +861,14 @@ func constStr(t *Term) string {
 // smtPrinter emits define-funs for shared sub-terms into a solver session.
 type smtPrinter struct {
 	names map[*Term]string
+	byExpr map[string]string
 	decls map[string]bool
 	out   *strings.Builder
 	n     int
 }
 
 func newSMTPrinter() *smtPrinter {
-	return &smtPrinter{names: map[*Term]string{}, decls: map[string]bool{}, out: &strings.Builder{}}
+	return &smtPrinter{names: map[*Term]string{}, byExpr: map[string]string{}, decls: map[string]bool{}, out: &strings.Builder{}}
 }
 
 // ref returns an SMT expression string denoting t, emitting any needed
@@ -834,8 +924,13 @@ func (p *smtPrinter) ref(t *Term) string {
 		p.names[t] = s
 		return s
 	}
+	if nm, ok := p.byExpr[s]; ok {
+		p.names[t] = nm
+		return nm
+	}
 	p.n++
 	name := fmt.Sprintf("t!%d", p.n)
+	p.byExpr[s] = name
 	fmt.Fprintf(p.out, "(define-fun %s () %s %s)\n", name, sortStr(t.w), s)
 	p.names[t] = name
 	return name
